@@ -23,13 +23,14 @@ import Scico.Proofs.ProxCubic
 import Scico.Proofs.ProxNuclearDual
 import Scico.Proofs.ProxPhase
 import Scico.Proofs.ProxAxis
+import Scico.Proofs.ProxCG
 
 set_option linter.unusedSectionVars false
 
 namespace Scico.Props.C02
 
 open Scico Scico.Prox Scico.ProxSpec Scico.ProxBridge Scico.ProxConvex Scico.ProxGroup Scico.ProxSep
-  Scico.ProxNonconvex Scico.ProxL1L2 Scico.ProxCubic Scico.ProxNuclear Scico.ProxPhase Scico.ProxAxis WithLp
+  Scico.ProxNonconvex Scico.ProxL1L2 Scico.ProxCubic Scico.ProxNuclear Scico.ProxPhase Scico.ProxAxis Scico.ProxCG WithLp
 
 /-! ## generic theorems (any real inner-product space: ℝⁿ, ℂⁿ with `Re⟨·,·⟩`, block arrays) -/
 
@@ -217,6 +218,32 @@ theorem C02_sqL2loss_diag {lam scale : ℝ} (hlam : 0 < lam) (hs : 0 ≤ scale) 
     (lam := lam) (v := v) (p := sqL2LossDiagProx scale w a y v lam)
     (fun i => ⟨trivial, fun z _ => sqL2loss_1d hlam hs (hw i) (a i) (y i) (v i) z⟩)
   exact this.congr_dom setOf_forall_univ
+
+/-- the model's residual of the CG system is `sysRes` of `Proofs/ProxCG.lean` -/
+theorem C02_sqL2loss_sys_model {m : ℕ} (scale lam : ℝ) (w y : Fin m → ℝ) (A : Fin m → Fin n → ℝ) (v x : Fin n → ℝ) :
+    sqL2LossSysResidual scale w A y v x lam = sysRes (2 * scale * lam) w A y v x := by
+  funext j
+  simp only [sqL2LossSysResidual, matTVec, matVec, vsum_eq, sysRes, sysOp, mtv, mv]
+
+/-- **`SquaredL2Loss.prox`, ANY linear operator `A` (dense `m × n`), weights `w ≥ 0`, `scale ≥ 0`**: a point where the residual of the
+    system handed to `cg` vanishes carries the sub-gradient certificate of `Σ scale·w_i (y_i - (Ax)_i)²` -/
+theorem C02_sqL2loss_normal_eq {m : ℕ} {lam scale : ℝ} (hlam : 0 < lam) (hs : 0 ≤ scale) (w y : Fin m → ℝ)
+    (hw : ∀ i, 0 ≤ w i) (A : Fin m → Fin n → ℝ) (v p : Fin n → ℝ)
+    (hres : ∀ j, sqL2LossSysResidual scale w A y v p lam j = 0) :
+    Cert Set.univ (sqL2Fn scale w A y) lam (toE v) (toE p) :=
+  cert_of_sysRes_zero hlam hs hw A y v p (fun j => by rw [← C02_sqL2loss_sys_model]; exact hres j)
+
+/-- **the CG path is as accurate as its residual**: the prox `p` exists, and EVERY `x` (in particular what `cg` returns after its
+    stopping test `‖r‖ ≤ tol‖b‖`, or after `maxiter`) satisfies `‖x - p‖ ≤ ‖residual(x)‖` — the system matrix is `⪰ I` -/
+theorem C02_sqL2loss_cg_bound {m : ℕ} {lam scale : ℝ} (hlam : 0 < lam) (hs : 0 ≤ scale) (w y : Fin m → ℝ)
+    (hw : ∀ i, 0 ≤ w i) (A : Fin m → Fin n → ℝ) (v : Fin n → ℝ) :
+    ∃ p : Fin n → ℝ, Cert Set.univ (sqL2Fn scale w A y) lam (toE v) (toE p) ∧
+      ∀ x : Fin n → ℝ, ‖toE x - toE p‖ ≤ ‖toE (sqL2LossSysResidual scale w A y v x lam)‖ := by
+  have hc : 0 ≤ 2 * scale * lam := by positivity
+  obtain ⟨p, hp⟩ := exists_sysRes_zero hc hw A y v
+  refine ⟨p, cert_of_sysRes_zero hlam hs hw A y v p hp, fun x => ?_⟩
+  rw [C02_sqL2loss_sys_model]
+  exact dist_le_norm_sysRes hc hw A y v x p hp
 
 /-- `NuclearNorm.prox` on the vector of singular values (`s ≥ 0`): `maximum(0, s - lam)` is the prox of the l1 norm -/
 theorem C02_nuclear_sv {lam : ℝ} (hlam : 0 < lam) (s : Fin n → ℝ) (hs : ∀ i, 0 ≤ s i) :
@@ -458,6 +485,19 @@ theorem C02_cubic_root_band_not_root {eps : ℝ} (heps : 0 < eps) :
   rw [depCubicRoot_band_residual heps]
   have : 0 < eps ^ 3 / 27 := by positivity
   linarith
+
+/-- **the error of `_dep_cubic_root` inside its band, quantified**: for `q < 0` and `|p| ≤ eps` the residual of the cubic at the
+    returned value is EXACTLY `p³/(27 q)`, so `|r³ + p r + q| ≤ eps³/(27|q|)` (`eps = 1e-7`: `≤ 3.8e-23/|q|`) -/
+theorem C02_cubic_root_band_residual {eps p q : ℝ} (hq : q < 0) (hp : |p| ≤ eps) :
+    depCubicRoot eps p q ^ 3 + p * depCubicRoot eps p q + q = p ^ 3 / (27 * q) ∧
+      |depCubicRoot eps p q ^ 3 + p * depCubicRoot eps p q + q| ≤ eps ^ 3 / (27 * |q|) :=
+  ⟨depCubicRoot_band_residual_eq hq hp, depCubicRoot_band_residual_le hq hp⟩
+
+/-- inside the band at `q = 0` (`v_i = 0`) the code returns `0`; it is a root, and for `p < 0` it misses the minimising radius
+    `√(-p)` by at most `√eps` -/
+theorem C02_cubic_root_band_zero {eps p : ℝ} (hp : |p| ≤ eps) :
+    depCubicRoot eps p 0 = 0 ∧ (p < 0 → √(-p) ≤ √eps) :=
+  ⟨depCubicRoot_band_zero hp, fun hneg => Real.sqrt_le_sqrt (by rw [abs_of_neg hneg] at hp; exact hp)⟩
 
 /-- **`SquaredL2SquaredAbsLoss.prox` with the root computed by the code's closed form** (no relation assumed), real input:
     global minimiser whenever no entry falls into the band `0 < |p_i| ≤ eps` of `_dep_cubic_root` -/
@@ -707,6 +747,11 @@ example {n : ℕ} (x : Fin n → ℝ) :
   rcases le_total (x i) 0 with h | h
   · rw [max_eq_right h]; nlinarith
   · rw [max_eq_left h]; simp
+-- C02_sqL2loss_normal_eq on numbers: A = (1 1) (1×2), w = 1, y = 3, scale = 1/2, lam = 1, v = (0, 0): the system (I + AᵀA) p = Aᵀy has p = (1, 1)
+example : ∀ j, sqL2LossSysResidual (1 / 2 : ℝ) (fun _ : Fin 1 => 1) (fun _ _ => (1 : ℝ)) (fun _ => 3) (fun _ : Fin 2 => 0) (fun _ => 1) 1 j = 0 := by
+  intro j
+  simp only [sqL2LossSysResidual, matTVec, matVec, vsum_eq, Fin.sum_univ_one, Fin.sum_univ_two]
+  norm_num
 end Examples
 
 end Scico.Props.C02
